@@ -7,6 +7,7 @@ package httpserver
 import (
 	"fmt"
 	"net"
+	"net/url"
 	"strings"
 
 	"pgregory.net/rapid"
@@ -123,6 +124,14 @@ func vfGenSeq(t *rapid.T, srv vfServer, minLen, maxLen int, extra []vfReq) ([]vf
 			}
 		case 5:
 			r.Method = strings.ToLower(r.Method)
+		case 6, 7:
+			// the percent-escaped spelling of the base path requested literally: another path for the
+			// router ("/a b" vs "/a%20b"), the same string for a cache keyed on one form and read by the other
+			if e := (&url.URL{Path: r.Path}).EscapedPath(); e != r.Path {
+				r.Path = e
+			} else if r.Path == "/a" || r.Path == "/b/a" {
+				r.Path += " b"
+			}
 		}
 		c := rapid.SampledFrom(vfClients).Draw(t, "client")
 		c.apply(&r)
